@@ -1,0 +1,284 @@
+//go:build verif
+
+package dkg
+
+import (
+	"context"
+	"math/big"
+
+	"github.com/bnb-chain/tss-lib/ecdsa/keygen"
+	"github.com/bnb-chain/tss-lib/tss"
+	"github.com/ipfs/go-log/v2"
+
+	"github.com/keep-network/keep-core/pkg/generator"
+	"github.com/keep-network/keep-core/pkg/internal/tecdsatest"
+	"github.com/keep-network/keep-core/pkg/net"
+	"github.com/keep-network/keep-core/pkg/protocol/group"
+	"github.com/keep-network/keep-core/pkg/protocol/state"
+	"github.com/keep-network/keep-core/pkg/tecdsa/common"
+)
+
+// Verification hook (build tag verif) for property C07: re-exports existing
+// unexported identifiers of the tECDSA DKG package through thin wrappers.
+// No protocol logic lives here.
+
+// VerifC07LoadFixtures re-exports the test-only private key share fixtures
+// (each of them carries a set of valid TSS pre-parameters).
+func VerifC07LoadFixtures(count int) ([]keygen.LocalPartySaveData, error) {
+	return tecdsatest.LoadPrivateKeyShareTestFixtures(count)
+}
+
+// VerifC07MemberIndexToKey is identityConverter.MemberIndexToTssPartyIDKey.
+func VerifC07MemberIndexToKey(seed *big.Int, idx group.MemberIndex) *big.Int {
+	return (&identityConverter{seed: seed}).MemberIndexToTssPartyIDKey(idx)
+}
+
+// VerifC07PartyIDToMemberIndex is identityConverter.TssPartyIDToMemberIndex on
+// a party ID built from the raw key.
+func VerifC07PartyIDToMemberIndex(seed *big.Int, key *big.Int) group.MemberIndex {
+	return (&identityConverter{seed: seed}).TssPartyIDToMemberIndex(
+		tss.NewPartyID(key.Text(10), "", key),
+	)
+}
+
+// VerifC07RoundTrip is MemberIndexToTssPartyID followed by
+// TssPartyIDToMemberIndex.
+func VerifC07RoundTrip(seed *big.Int, idx group.MemberIndex) group.MemberIndex {
+	ic := &identityConverter{seed: seed}
+	return ic.TssPartyIDToMemberIndex(ic.MemberIndexToTssPartyID(idx))
+}
+
+// VerifC07Member wraps a protocol member in its initial state.
+type VerifC07Member struct {
+	m *member
+}
+
+// VerifC07NewMember is newMember. Exclusions are applied by the caller through
+// MarkDisqualified (group.MarkMemberAsDisqualified) or by running
+// Executor.Execute.
+func VerifC07NewMember(
+	logger log.StandardLogger,
+	seed *big.Int,
+	memberIndex group.MemberIndex,
+	groupSize, dishonestThreshold int,
+	membershipValidator *group.MembershipValidator,
+	sessionID string,
+	preParams *keygen.LocalPreParams,
+) *VerifC07Member {
+	return &VerifC07Member{newMember(
+		logger,
+		seed,
+		memberIndex,
+		groupSize,
+		dishonestThreshold,
+		membershipValidator,
+		sessionID,
+		func() (*PreParams, error) { return newPreParams(preParams), nil },
+		1,
+	)}
+}
+
+func (v *VerifC07Member) Group() *group.Group { return v.m.group }
+
+func (v *VerifC07Member) ShouldAcceptMessage(
+	senderID group.MemberIndex,
+	senderPublicKey []byte,
+) bool {
+	return v.m.shouldAcceptMessage(senderID, senderPublicKey)
+}
+
+// PartiesIDs is the call made by initializeTssRoundOne: own party ID, the
+// group parties IDs (unsorted) and the tss-lib sorted ones.
+func (v *VerifC07Member) PartiesIDs() (*tss.PartyID, []*tss.PartyID, tss.SortedPartyIDs) {
+	own, all := common.GenerateTssPartiesIDs(
+		v.m.id,
+		v.m.group.OperatingMemberIndexes(),
+		v.m.identityConverter,
+	)
+	// GenerateTssPartiesIDs again: SortPartyIDs mutates the Index field.
+	_, again := common.GenerateTssPartiesIDs(
+		v.m.id,
+		v.m.group.OperatingMemberIndexes(),
+		v.m.identityConverter,
+	)
+	return own, all, tss.SortPartyIDs(again)
+}
+
+// MisbehavedMembersIndexes is Result.MisbehavedMembersIndexes on the member's group.
+func (v *VerifC07Member) MisbehavedMembersIndexes() []group.MemberIndex {
+	return (&Result{Group: v.m.group}).MisbehavedMembersIndexes()
+}
+
+// InitialState builds the first protocol state exactly like Executor.Execute.
+func (v *VerifC07Member) InitialState(channel net.BroadcastChannel) state.AsyncState {
+	return &ephemeralKeyPairGenerationState{
+		BaseAsyncState: state.NewBaseAsyncState(),
+		channel:        channel,
+		member:         v.m.initializeEphemeralKeysGeneration(),
+	}
+}
+
+// VerifC07Base returns the shared message history of a DKG protocol state.
+func VerifC07Base(s state.AsyncState) *state.BaseAsyncState {
+	switch st := s.(type) {
+	case *ephemeralKeyPairGenerationState:
+		return st.BaseAsyncState
+	case *symmetricKeyGenerationState:
+		return st.BaseAsyncState
+	case *tssRoundOneState:
+		return st.BaseAsyncState
+	case *tssRoundTwoState:
+		return st.BaseAsyncState
+	case *tssRoundThreeState:
+		return st.BaseAsyncState
+	case *finalizationState:
+		return st.BaseAsyncState
+	case *resultSigningState:
+		return st.BaseAsyncState
+	}
+	return nil
+}
+
+// Message kinds understood by VerifC07NewMessage / VerifC07ReceivedMessages.
+const (
+	VerifC07KindEphemeral = iota
+	VerifC07KindRoundOne
+	VerifC07KindRoundTwo
+	VerifC07KindRoundThree
+	VerifC07KindFinalization
+	VerifC07KindResultSignature
+	VerifC07KindCount
+)
+
+// VerifC07NewMessage constructs a protocol message payload of the given kind.
+func VerifC07NewMessage(
+	kind int,
+	senderID group.MemberIndex,
+	sessionID string,
+	publicKey []byte,
+) interface {
+	SenderID() group.MemberIndex
+	SessionID() string
+	Type() string
+} {
+	switch kind {
+	case VerifC07KindEphemeral:
+		return &ephemeralPublicKeyMessage{senderID: senderID, sessionID: sessionID}
+	case VerifC07KindRoundOne:
+		return &tssRoundOneMessage{senderID: senderID, sessionID: sessionID}
+	case VerifC07KindRoundTwo:
+		return &tssRoundTwoMessage{senderID: senderID, sessionID: sessionID}
+	case VerifC07KindRoundThree:
+		return &tssRoundThreeMessage{senderID: senderID, sessionID: sessionID}
+	case VerifC07KindFinalization:
+		return &tssFinalizationMessage{senderID: senderID, sessionID: sessionID}
+	case VerifC07KindResultSignature:
+		return &resultSignatureMessage{
+			senderID:  senderID,
+			sessionID: sessionID,
+			publicKey: publicKey,
+		}
+	}
+	return nil
+}
+
+// VerifC07ReceivedMessages is receivedMessages[T] for the message kind.
+func VerifC07ReceivedMessages(base *state.BaseAsyncState, kind int) []interface{} {
+	var out []interface{}
+	switch kind {
+	case VerifC07KindEphemeral:
+		for _, m := range receivedMessages[*ephemeralPublicKeyMessage](base) {
+			out = append(out, m)
+		}
+	case VerifC07KindRoundOne:
+		for _, m := range receivedMessages[*tssRoundOneMessage](base) {
+			out = append(out, m)
+		}
+	case VerifC07KindRoundTwo:
+		for _, m := range receivedMessages[*tssRoundTwoMessage](base) {
+			out = append(out, m)
+		}
+	case VerifC07KindRoundThree:
+		for _, m := range receivedMessages[*tssRoundThreeMessage](base) {
+			out = append(out, m)
+		}
+	case VerifC07KindFinalization:
+		for _, m := range receivedMessages[*tssFinalizationMessage](base) {
+			out = append(out, m)
+		}
+	case VerifC07KindResultSignature:
+		for _, m := range receivedMessages[*resultSignatureMessage](base) {
+			out = append(out, m)
+		}
+	}
+	return out
+}
+
+// VerifC07MessageType is the Type() of the given message kind.
+func VerifC07MessageType(kind int) string {
+	return VerifC07NewMessage(kind, 0, "", nil).Type()
+}
+
+// VerifC07NewPublicationState builds the first state of Publish
+// (resultSigningState) around newSigningMember.
+func VerifC07NewPublicationState(
+	logger log.StandardLogger,
+	memberIndex group.MemberIndex,
+	g *group.Group,
+	membershipValidator *group.MembershipValidator,
+	sessionID string,
+) state.AsyncState {
+	return &resultSigningState{
+		BaseAsyncState: state.NewBaseAsyncState(),
+		member: newSigningMember(
+			logger,
+			memberIndex,
+			g,
+			membershipValidator,
+			sessionID,
+		),
+	}
+}
+
+// verifC07Persistence is a one-element read-only store for the parameter pool.
+type verifC07Persistence struct {
+	items []*PersistedPreParams
+}
+
+func (p *verifC07Persistence) Save(pp *PreParams) (*PersistedPreParams, error) {
+	return &PersistedPreParams{Data: *pp, ID: "verif"}, nil
+}
+func (p *verifC07Persistence) Delete(*PersistedPreParams) error { return nil }
+func (p *verifC07Persistence) ReadAll() ([]*PersistedPreParams, error) {
+	return p.items, nil
+}
+
+// VerifC07NewExecutor builds an Executor whose pre-parameters pool holds
+// exactly the given (fixture) pre-parameters and never generates new ones:
+// the generation function blocks until its context is done.
+func VerifC07NewExecutor(
+	logger log.StandardLogger,
+	preParams *keygen.LocalPreParams,
+	keyGenerationConcurrency int,
+) *Executor {
+	persistence := &verifC07Persistence{items: []*PersistedPreParams{
+		{Data: *newPreParams(preParams), ID: "verif"},
+	}}
+	return &Executor{
+		tssPreParamsPool: &tssPreParamsPool{
+			generator.NewParameterPool[PreParams](
+				logger,
+				&generator.Scheduler{},
+				persistence,
+				1,
+				func(ctx context.Context) *PreParams {
+					<-ctx.Done()
+					return nil
+				},
+				0,
+			),
+			logger,
+		},
+		keyGenerationConcurrency: keyGenerationConcurrency,
+	}
+}
